@@ -3,3 +3,8 @@ import DoviModel.Props.C13
 import DoviModel.Props.C01
 import DoviModel.Props.C02
 import DoviModel.Props.C15
+import DoviModel.Props.C05
+import DoviModel.Props.C06
+import DoviModel.Props.C07
+import DoviModel.Props.C08
+import DoviModel.Props.C18
